@@ -210,3 +210,138 @@ Proof.
   destruct (msim_get_some _ _ _ _ Hsim Ex) as (l' & El' & Hs). rewrite El in El'. injection El' as <-.
   rewrite <- (dirs_ok_lsim cfg _ x l Hs) in Hd. exact Hd.
 Qed.
+
+(* ------------------------------------------------------------------ (d) own mounts never error *)
+Lemma refresh_mounts_msim_st c ld s ld' s' : refresh_mounts c ld s = (Ret ld', s') ->
+  s' = s /\ msim_st (ld_map ld) (ld_map ld') /\ ld_order ld' = ld_order ld
+  /\ ld_probe ld' = probe_of (w_ks (s_w s)).
+Proof.
+  intros H. apply refresh_mounts_inv in H as (-> & ms & ds & Hp & ->). cbn [ld_map ld_order ld_probe].
+  split; [reflexivity|]. split; [apply msim_st_map_overlain|]. split; [reflexivity|now rewrite Hp].
+Qed.
+
+Lemma mount_loop_msim_st e c xs : forall ld s ld' s',
+  mount_loop e c xs ld s = (Ret ld', s') -> msim_st (ld_map ld) (ld_map ld').
+Proof.
+  induction xs as [|x r IH]; intros ld s ld' s' H; cbn [mount_loop] in H.
+  - apply ret_inv in H as [-> _]. apply msim_st_refl.
+  - destruct (get_mount (pr_mounts (ld_probe ld)) (x_mount x)) as [mnt|].
+    + destruct (source_is_expected _ mnt (x_source x)); [now apply (IH _ _ _ _ H)|discriminate].
+    + apply bind_inv in H as (f & s1 & H1 & H). apply bind_inv in H as (u2 & s2 & H2 & H).
+      apply bind_inv in H as (u3 & s3 & H3 & H). apply bind_inv in H as (ld1 & s4 & H4 & H).
+      apply refresh_mounts_msim_st in H4 as (_ & Hm & _).
+      eapply msim_st_trans; [exact Hm|now apply (IH _ _ _ _ H)].
+Qed.
+
+Lemma mount_one_inv e c ld name s ld' s' : mount_one e c ld name s = (Ret ld', s') ->
+  exists ld1 l1, msim_st (ld_map ld) (ld_map ld1) /\ lm_get (ld_map ld1) name = Some l1
+  /\ ld_probe ld1 = probe_of (w_ks (s_w s'))
+  /\ (l_state (find_layerstate c (w_fs (s_w s')) ld1 l1) =? st_error) = false
+  /\ ld' = set_layer ld1 (find_layerstate c (w_fs (s_w s')) ld1 l1).
+Proof.
+  unfold mount_one. destruct (lm_get (ld_map ld) name) as [l|]; [|discriminate].
+  intros H. apply bind_inv in H as (u0 & s0 & H0 & H). apply bind_inv in H as (u1 & s1 & H1 & H).
+  destruct (expand_config_mounts c (ld_map ld) l) as [xs|]; [|discriminate].
+  apply bind_inv in H as (ld0 & s2 & H2 & H).
+  change (mount_loop e c xs ld s1 = (Ret ld0, s2)) in H2. apply mount_loop_msim_st in H2.
+  apply bind_inv in H as (ld1 & s3 & H3 & H). apply refresh_mounts_msim_st in H3 as (-> & Hm & _ & Hp).
+  apply bind_inv in H as (f & s4 & H4 & H). apply get_fs_inv in H4 as [-> ->].
+  destruct (lm_get (ld_map ld1) name) as [l1|] eqn:E1; [|discriminate].
+  apply bind_inv in H as (u5 & s5 & H5 & H). apply guard_inv in H5 as [Hg ->].
+  apply ret_inv in H as [-> ->]. exists ld1, l1.
+  split; [eapply msim_st_trans; eassumption|]. split; [exact E1|]. split; [exact Hp|].
+  split; [now apply negb_true_iff in Hg|reflexivity].
+Qed.
+
+(* the layer found under [nm] is not in error *)
+Definition not_error (ld : ldefs) (nm : bytes) : Prop :=
+  exists l, lm_get (ld_map ld) nm = Some l /\ (l_state l =? st_error) = false.
+
+Lemma mount_one_not_error e c ld name s ld' s' : mount_one e c ld name s = (Ret ld', s') ->
+  not_error ld' name /\ forall nm, not_error ld nm -> not_error ld' nm.
+Proof.
+  intros H. apply mount_one_inv in H as (ld1 & l1 & Hm & E1 & _ & Hne & ->).
+  set (l2 := find_layerstate c (w_fs (s_w s')) ld1 l1) in *.
+  assert (Hn2 : l_name l2 = name).
+  { destruct (find_layerstate_lsim c (w_fs (s_w s')) ld1 l1) as (Hn & _). fold l2 in Hn.
+    rewrite <- Hn. now apply (lm_get_name (ld_map ld1)). }
+  assert (Hsame : not_error (set_layer ld1 l2) name).
+  { exists l2. cbn [set_layer ld_map]. rewrite <- Hn2 at 1. split; [apply lm_get_set_same|exact Hne]. }
+  split; [exact Hsame|]. intros nm (l & El & Hl).
+  destruct (beq name nm) eqn:E; [apply beq_true in E; subst nm; exact Hsame|].
+  apply beq_false in E. destruct (msim_st_get_some _ _ _ _ Hm El) as (l' & El' & (_ & Hst)).
+  exists l'. cbn [set_layer ld_map]. rewrite lm_get_set_other by congruence. split; [exact El'|congruence].
+Qed.
+
+Lemma foldM_mount_one_not_error e c chain : forall ld s ld' s',
+  foldM (fun ld x => mount_one e c ld (l_name x)) chain ld s = (Ret ld', s') ->
+  (forall x, In x chain -> not_error ld' (l_name x)) /\ forall nm, not_error ld nm -> not_error ld' nm.
+Proof.
+  induction chain as [|y r IH]; intros ld s ld' s' H; cbn [foldM] in H.
+  - apply ret_inv in H as [-> _]. split; [intros x []|auto].
+  - apply bind_inv in H as (ld1 & s1 & H1 & H). apply mount_one_not_error in H1 as [Hy Hk].
+    apply IH in H as [Hr Hk2]. split; [|auto]. intros x [<-|Hx]; [auto|now apply Hr].
+Qed.
+
+Lemma existsb_ins_lobs g x l : existsb g (ins_lobs x l) = g x || existsb g l.
+Proof.
+  induction l as [|y r IH]; cbn [ins_lobs existsb]; [reflexivity|].
+  destruct (ltb (lo_name y) (lo_name x)); cbn [existsb]; [|reflexivity].
+  rewrite IH. destruct (g x), (g y); reflexivity.
+Qed.
+Lemma existsb_sort_lobs g l : existsb g (sort_lobs l) = existsb g l.
+Proof.
+  unfold sort_lobs. induction l as [|x r IH]; cbn [fold_right existsb]; [reflexivity|].
+  now rewrite existsb_ins_lobs, IH.
+Qed.
+
+Lemma Forall2_in_l {A B} (R : A -> B -> Prop) l l' x : Forall2 R l l' -> In x l -> exists y, In y l' /\ R x y.
+Proof.
+  induction 1 as [|a b r r' Hab _ IH]; intros Hin; [destruct Hin|].
+  destruct Hin as [<-|Hin]; [exists b; split; [now left|exact Hab]|].
+  destruct (IH Hin) as (y & H1 & H2). exists y. split; [now right|exact H2].
+Qed.
+
+Lemma mount_layer_not_error e c ld name s ld' s' chain :
+  mount_layer e c ld name s = (Ret ld', s') ->
+  ancestors_and_self (S (length (ld_map ld))) (ld_map ld) name [] = Some chain ->
+  forall x, In x chain -> not_error ld' (l_name x).
+Proof.
+  unfold mount_layer. intros H Hc.
+  apply bind_inv in H as (u0 & s0 & H0 & H).
+  destruct (lm_get (ld_map ld) name) as [l|]; [|discriminate].
+  apply bind_inv in H as (u1 & s1 & H1 & H). rewrite Hc in H.
+  apply bind_inv in H as (ld1 & s2 & H2 & H). apply bind_inv in H as (ld2 & s3 & H3 & H).
+  apply bind_inv in H as (u4 & s4 & H4 & H). apply ret_inv in H as [-> _].
+  apply foldM_mount_one_not_error in H3 as [H3 _]. exact H3.
+Qed.
+
+Theorem own_mounts_never_error cfg w e n um :
+  C08.step_spec cfg w (view_of_model cfg w e (CMount n) um) = true.
+Proof.
+  unfold view_of_model.
+  destruct (run e cfg um (CMount n) (world_of w)) as [o st] eqn:Erun.
+  unfold C08.step_spec. cbn [v_env v_cmd v_res v_layers v_after wo_fs].
+  destruct (plain_env e) eqn:Epl; [|reflexivity]. cbn [negb].
+  destruct o as [r| | | |]; try reflexivity. cbn [rclass_of].
+  destruct r as [ld'|]; [|reflexivity].
+  unfold run, run_command in Erun.
+  apply bind_inv in Erun as (f & s1 & H1 & Erun). apply get_fs_inv in H1 as [-> ->].
+  apply bind_inv in Erun as (u2 & s2 & H2 & Erun). apply guard_inv in H2 as [_ ->].
+  apply bind_inv in Erun as (ld & s3 & H3 & Erun).
+  apply get_layers_facts in H3 as (-> & Hsim & _).
+  apply bind_inv in Erun as (ld2 & s4 & H4 & Erun). apply ret_inv in Erun as [E ->].
+  injection E as ->. cbn [s_w world_of w_fs] in *.
+  apply forallb_forall. intros x Hx.
+  unfold chain, layers_on_disk in Hx.
+  pose proof (msim_ancestors _ _ Hsim (S (length (read_layer_files cfg (wo_fs w)))) n [] [] (Forall2_nil _)) as Ha.
+  destruct (ancestors_and_self (S (length (read_layer_files cfg (wo_fs w)))) (read_layer_files cfg (wo_fs w)) n [])
+    as [ch|] eqn:Ech; [|destruct Hx].
+  rewrite (msim_length _ _ Hsim) in Ha.
+  destruct (ancestors_and_self (S (length (ld_map ld))) (ld_map ld) n []) as [ch'|] eqn:Ech'; [|contradiction].
+  destruct (Forall2_in_l _ _ _ _ Ha Hx) as (y & Hy & (Hn & _)).
+  destruct (mount_layer_not_error _ _ _ _ _ _ _ _ H4 Ech' y Hy) as (l & El & Hl).
+  rewrite existsb_sort_lobs. apply existsb_exists. exists (lobs_of l). split.
+  - apply in_map. now apply (lm_get_in _ (l_name y)).
+  - cbn [lobs_of lo_name lo_state]. rewrite (lm_get_name _ _ _ El), Hn, beq_refl, Hl. reflexivity.
+Qed.
